@@ -25,6 +25,46 @@ var Families = map[string]func(t *testing.T, seed int64, steps int) *Cluster{
 	"notify":    famNotify,
 	"restore":   famRestore,
 	"figure8":   famFigure8,
+	"snapmember": famSnapMember,
+	"cfgtrunc":  famCfgTrunc,
+	"snapcfgrace": famSnapCfgRace,
+}
+
+// famSnapMember: snapshots racing with membership changes and a slow FSM, then restarts from the snapshot.
+func famSnapMember(t *testing.T, seed int64, steps int) *Cluster {
+	opt := DefaultOptions(seed)
+	opt.Family = "snapmember"
+	opt.Servers = []string{"n1", "n2", "n3", "n4"}
+	if seed%2 == 0 {
+		opt.Initial = map[string]string{"n1": "V"}
+	} else {
+		opt.Initial = map[string]string{"n1": "V", "n2": "V", "n3": "V"}
+	}
+	opt.SnapThresh = uint64(2 + seed%3)
+	opt.SnapIntv = 15 * time.Millisecond
+	opt.Trailing = uint64(seed % 2)
+	opt.CfgStoreFSM = seed%3 == 0
+	c := NewCluster(t, opt)
+	c.Bootstrap()
+	c.StartAll()
+	w := Weights{Deliver: 40, Reply: 40, Drop: 1, LoseResp: 1, Tick: 12, TickMax: 12 * time.Millisecond,
+		Apply: 10, Member: 8, MaxMember: 20, UserSnap: 6, FsmGate: 5, FsmRelease: 8, Crash: 2, Restart: 6, MaxCrashes: 6, MaxDown: 1}
+	c.RandomRun(w, steps)
+	c.convergeNoExpect(500 * time.Millisecond)
+	// restart everybody from disk: the configuration must survive
+	for _, n := range c.Nodes {
+		if n.Up {
+			c.Crash(n.ID)
+		}
+	}
+	for _, n := range c.Nodes {
+		if n.everStarted {
+			c.Start(n.ID)
+		}
+	}
+	c.Settle("restart")
+	c.RunQuiet(300*time.Millisecond, 5*time.Millisecond)
+	return c
 }
 
 // famMember: membership changes racing with elections, crashes and partitions; universe of 5.
@@ -99,7 +139,7 @@ func famVerify(t *testing.T, seed int64, steps int) *Cluster {
 	c.StartAll()
 	c.WaitLeader(time.Second)
 	w := Weights{Deliver: 36, Reply: 30, Drop: 4, LoseResp: 4, Dup: 2, Tick: 10, TickMax: 15 * time.Millisecond,
-		Apply: 3, Verify: 12, Partition: 6, Heal: 3, Crash: 1, Restart: 3, MaxCrashes: 2}
+		Apply: 3, Verify: 12, Member: 2, MaxMember: 4, Partition: 5, Split: 3, Heal: 3, Crash: 1, Restart: 3, MaxCrashes: 2}
 	c.RandomRun(w, steps)
 	c.converge(500 * time.Millisecond)
 	return c
@@ -148,7 +188,7 @@ func famLease(t *testing.T, seed int64, steps int) *Cluster {
 	c.StartAll()
 	c.WaitLeader(2 * time.Second)
 	w := Weights{Deliver: 40, Reply: 40, Drop: 2, LoseResp: 2, Tick: 30, TickMax: 3 * time.Millisecond,
-		Apply: 2, Partition: 3, Heal: 2}
+		Apply: 2, Partition: 2, Split: 2, Heal: 2}
 	c.RandomRun(w, steps)
 	c.converge(1500 * time.Millisecond)
 	return c
@@ -194,6 +234,10 @@ func (c *Cluster) WaitLeaderStable() string {
 func famPreVote(t *testing.T, seed int64, steps int) *Cluster {
 	opt := DefaultOptions(seed)
 	opt.Family = "prevote"
+	if seed%3 == 1 {
+		// mixed cluster: a majority of the servers run with PreVoteDisabled
+		opt.PreVoteOffNodes = map[string]bool{"n1": true, "n2": true}
+	}
 	if seed%2 == 0 {
 		opt.Servers = []string{"n1", "n2", "n3", "n4", "n5"}
 		opt.Initial = map[string]string{"n1": "V", "n2": "V", "n3": "V", "n4": "V", "n5": "V"}
@@ -211,13 +255,19 @@ func famPreVote(t *testing.T, seed int64, steps int) *Cluster {
 	// isolate a minority that does not contain the leader
 	var others []string
 	for _, id := range opt.Servers {
-		if id != l {
+		if id != l && !opt.PreVoteOffNodes[id] { // the property speaks about servers that run pre-vote
 			others = append(others, id)
 		}
 	}
+	if len(others) == 0 {
+		c.Opt.ExpectStable = true
+		c.RunQuiet(200*time.Millisecond, 5*time.Millisecond)
+		c.Quiesce(true)
+		return c
+	}
 	c.Rng.Shuffle(len(others), func(i, j int) { others[i], others[j] = others[j], others[i] })
 	k := 1
-	if len(opt.Servers) == 5 && seed%4 == 0 {
+	if len(opt.Servers) == 5 && seed%4 == 0 && len(others) >= 2 {
 		k = 2
 	}
 	iso := others[:k]
@@ -319,6 +369,7 @@ func famRestore(t *testing.T, seed int64, steps int) *Cluster {
 func famElect(t *testing.T, seed int64, steps int) *Cluster {
 	opt := DefaultOptions(seed)
 	opt.Family = "elect"
+	opt.KeepMinorityDown = seed%2 == 0
 	if seed%3 == 0 {
 		opt.Servers = []string{"n1", "n2", "n3", "n4", "n5"}
 		opt.Initial = map[string]string{"n1": "V", "n2": "V", "n3": "V", "n4": "V", "n5": "V"}
@@ -351,7 +402,7 @@ func famSnap(t *testing.T, seed int64, steps int) *Cluster {
 	c.StartAll()
 	w := Weights{Deliver: 40, Reply: 40, Drop: 3, LoseResp: 3, Dup: 2, Tick: 14, TickMax: 20 * time.Millisecond,
 		Apply: 10, Barrier: 1, UserSnap: 2, Partition: 3, Heal: 2, Crash: 1, CrashAtWrite: 1, Restart: 3, MaxCrashes: 5,
-		FsmGate: 1, FsmRelease: 3}
+		FsmGate: 1, FsmRelease: 3, DupIS: 3}
 	c.RandomRun(w, steps)
 	c.converge(600 * time.Millisecond)
 	return c
@@ -360,9 +411,20 @@ func famSnap(t *testing.T, seed int64, steps int) *Cluster {
 // converge stops faults, restarts everybody and runs a healthy network for a while.
 func (c *Cluster) converge(d time.Duration) {
 	c.StopFaults()
+	var downIDs []string
 	for _, n := range c.Nodes {
 		if !n.Up && n.everStarted {
-			c.Start(n.ID)
+			downIDs = append(downIDs, n.ID)
+		}
+	}
+	// a majority of the voters must suffice: sometimes one crashed server stays down
+	keep := ""
+	if c.Opt.KeepMinorityDown && len(downIDs) > 0 && 2*(len(c.Opt.Initial)-1) > len(c.Opt.Initial) && len(c.Opt.Servers) == len(c.Opt.Initial) {
+		keep = downIDs[c.Rng.Intn(len(downIDs))]
+	}
+	for _, id := range downIDs {
+		if id != keep {
+			c.Start(id)
 		}
 	}
 	c.Settle("restart")
@@ -430,11 +492,19 @@ func (c *Cluster) runUntilConverged(budget time.Duration) {
 func famChaos(t *testing.T, seed int64, steps int) *Cluster {
 	opt := DefaultOptions(seed)
 	opt.Family = "chaos"
+	opt.KeepMinorityDown = seed%2 == 1
+	opt.Pipeline = seed%4 == 2
+	opt.HBFast = seed%5 == 3
 	c := NewCluster(t, opt)
 	c.Bootstrap()
 	c.StartAll()
 	w := Weights{Deliver: 40, Reply: 40, Drop: 4, LoseResp: 4, Dup: 3, Tick: 14, TickMax: 20 * time.Millisecond,
-		Apply: 6, Barrier: 1, Partition: 2, Heal: 2, Crash: 1, CrashAtWrite: 1, Restart: 3, MaxCrashes: 4, Transfer: 1}
+		Apply: 6, Barrier: 1, Partition: 2, Split: 1, Heal: 2, Crash: 1, CrashAtWrite: 1, Restart: 3, MaxCrashes: 4, Transfer: 1}
+	if opt.Pipeline {
+		// leadershipTransfer() polls the replication routine in a loop that, in pipeline mode, spins without
+		// blocking until the outstanding responses arrive; in virtual time the bubble would never go idle
+		w.Transfer = 0
+	}
 	c.RandomRun(w, steps)
 	c.converge(500 * time.Millisecond)
 	return c
